@@ -479,6 +479,32 @@ def Lru.call {χ κ ν : Type} [DecidableEq κ] (f : χ → ν) (key : χ → κ
   | some v => (⟨(key x, v) :: s.cache.filter (fun p => p.1 ≠ key x), s.hits + 1, s.misses⟩, v)
   | none => (⟨((key x, f x) :: s.cache).take maxsize, s.hits, s.misses + 1⟩, f x)
 
+/-! ## Curve identity: the key every curve-keyed cache and the backend dispatch see -/
+
+/-- what a `Curve` is built from. -/
+structure CurveId where
+  p : Int
+  a : Int
+  b : Int
+  gx : Int
+  gy : Int
+  n : Int
+  h : Int
+  deriving DecidableEq, Repr, Inhabited
+
+def CurveField.get : CurveField → CurveId → Int
+  | .p, c => c.p | .a, c => c.a | .b, c => c.b | .gx, c => c.gx | .gy, c => c.gy | .n, c => c.n | .h, c => c.h
+
+/-- `_eq_key()` for a given list of components. -/
+def eqKey (fs : List CurveField) (c : CurveId) : List Int := fs.map (·.get c)
+
+/-- `Curve.__eq__` / `__hash__` as the source states them: through `Curve._eq_key`. -/
+def curveKey (c : CurveId) : List Int := eqKey Gen.Lifecycle.curveEqKey c
+
+/-- `_libsecp256k1_serves`: flag up and `ec == secp256k1` (hash function aside). -/
+def servesCurve (secp : CurveId) (flag : Bool) (ec : CurveId) : Bool :=
+  flag && decide (curveKey ec = curveKey secp)
+
 /-! ## Backend flag -/
 
 inductive BackendOp (χ : Type)
